@@ -421,7 +421,7 @@ func genValue(t *rapid.T) []byte {
 	case 2, 3, 4, 5:
 		return rapid.SliceOfN(rapid.Byte(), 1, 64).Draw(t, "bin")
 	case 6, 7:
-		return []byte(strings.Repeat(rapid.StringMatching(`[a-z]{1,8}`).Draw(t, "rep"), rapid.IntRange(8, 256).Draw(t, "times")))
+		return []byte(strings.Repeat(rapid.StringMatching(`[a-z]{1,8}`).Draw(t, "rep"), rapid.SampledFrom([]int{8, 20, 64, 256, 400, 700, 1000}).Draw(t, "times")))
 	case 8:
 		return []byte(rapid.SampledFrom([]string{"a;b", " x ", `"q"`, "a; Path=/evil", "x ", " y", "secret-text; max-age=soon", "secret-text; expires=never"}).Draw(t, "lossy"))
 	case 9, 10:
